@@ -1,7 +1,72 @@
 From Coq Require Import ZArith List.
-From Cspuz Require Import Lib.PyErr Core.Expr Core.Program Backend.Z3 Backend.SolveLoop.
+From Cspuz Require Import Lib.PyErr Core.Expr Core.Program Backend.Z3 Backend.Z3Oracle Backend.ExprFacts
+  Backend.Z3SolveProofs Backend.Z3OracleProofs Backend.SolveLoop Backend.SolveLoopProofs Backend.SolveZ3Proofs.
 Import ListNotations.
-Theorem scripted_unsat_first : forall vs ks fuel script,
-  solve_scripted vs ks fuel (None :: script) = Ok (Unsat, {| sc_log := []; sc_script := None :: script |}).
-Proof. reflexivity. Qed.
-Print Assumptions scripted_unsat_first.
+
+(* Solver.solve(backend="z3"): Unsat <-> unsatisfiable; otherwise for every answer key the sol
+   field is Some v <-> every model gives the variable v, and None <-> two models differ on it;
+   never OutOfFuel -- for ANY solver meeting the two hypotheses, whatever models it picks *)
+Theorem solve_exact : forall oracle, oracle_sound_on oracle -> oracle_complete_on oracle ->
+  forall st, wf_state st -> wf_keys st ->
+  exists r, solve oracle st = Ok r /\
+    match r with
+    | Unsat => ~ satisfiable no_graph st
+    | Sat sol =>
+        satisfiable no_graph st /\
+        forall j d, nth_error (vars st) j = Some d -> nth_error (keys st) j = Some true ->
+          exists a, nth_error sol j = Some a /\
+            (forall v, a = Some v <-> (forall en, model_of no_graph en st -> val_of en d j = v)) /\
+            (a = None <-> exists e1 e2, model_of no_graph e1 st /\ model_of no_graph e2 st /\
+                                        val_of e1 d j <> val_of e2 d j)
+    | OutOfFuel => False
+    end.
+Proof. exact solve_exact_z3. Qed.
+Print Assumptions solve_exact.
+
+Theorem solve_no_fuel : forall oracle, oracle_sound_on oracle -> oracle_complete_on oracle ->
+  forall st, wf_state st -> wf_keys st -> solve oracle st <> Ok OutOfFuel.
+Proof. exact solve_no_fuel_z3. Qed.
+Print Assumptions solve_no_fuel.
+
+(* the loop itself, for ANY backend object whose add_constraint / solve are sound and complete
+   for what they were given (fuel S(#keys) suffices) *)
+Theorem solve_loop_exact : forall (B : Type) (b_add : B -> expr -> res B)
+    (b_solve : B -> res (option (list value))) (vs : list vdecl) (ks : list bool) (cs0 : list expr),
+  length ks = length vs ->
+  forall rep : B -> list expr -> Prop,
+  (forall b added e, rep b added -> wf_cons vs [e] ->
+     exists b', b_add b e = Ok b' /\ rep b' (added ++ [e])) ->
+  (forall b added, rep b added -> wf_cons vs added ->
+     exists r, b_solve b = Ok r /\
+       match r with
+       | Some s => sol_typed vs s /\ is_model vs cs0 (env_of_sol s) /\
+                   forallb (holds no_graph (env_of_sol s)) added = true
+       | None => forall en, is_model vs cs0 en -> forallb (holds no_graph en) added = false
+       end) ->
+  forall b0, rep b0 [] ->
+  exists r b', solve_with B b_add b_solve vs ks (S (n_keys ks)) b0 = Ok (r, b') /\
+    match r with
+    | Unsat => forall en, ~ is_model vs cs0 en
+    | Sat sol => (exists en, is_model vs cs0 en) /\ exact_on_keys vs ks cs0 sol
+    | OutOfFuel => False
+    end.
+Proof. exact solve_with_exact. Qed.
+Print Assumptions solve_loop_exact.
+
+(* route independence: a protocol-conformant reply of a backend with its own deduction mode
+   leaves the same sol on every answer key as the refinement loop does *)
+Theorem solve_route_independent : forall oracle, oracle_sound_on oracle -> oracle_complete_on oracle ->
+  forall st reply r, wf_state st -> wf_keys st -> native_reply_ok st reply -> solve oracle st = Ok r ->
+  match sol_of_native reply, r with
+  | Unsat, Unsat => True
+  | Sat s1, Sat s2 => forall j d, nth_error (vars st) j = Some d -> nth_error (keys st) j = Some true ->
+                      nth_error s1 j = nth_error s2 j
+  | _, _ => False
+  end.
+Proof. exact route_independent_z3. Qed.
+Print Assumptions solve_route_independent.
+
+(* non-vacuity: the brute-force oracle meets both hypotheses *)
+Theorem oracle_hypotheses_satisfiable : oracle_sound_on bf_oracle /\ oracle_complete_on bf_oracle.
+Proof. exact (conj bf_oracle_sound bf_oracle_complete). Qed.
+Print Assumptions oracle_hypotheses_satisfiable.
